@@ -10,6 +10,7 @@ Tie: function-level correspondence of the private functions on arbitrary and rea
 -/
 import MTProofs.Refine
 import MTProofs.Graph
+import MT.Generated.Control
 
 namespace MTProps.C02
 open MT MTProofs Finset
@@ -140,6 +141,28 @@ theorem built_view_wf {β ω : Type} [DecidableEq β] [Weight ω] (directed : Bo
       · simp [List.getElem?_range ha, List.getElem?_eq_none (l := List.range _) (by simpa using Nat.le_of_not_lt hi)] at hj
     · simp [List.getElem?_eq_none (l := List.range _) (by simpa using Nat.le_of_not_lt ha)] at hj
   · simp [hdir] at hj
+
+/-! ### the text of the solver (regenerated from solver.hpp on every run) is what the model encodes -/
+
+/-- `loop` calls the out-membership update, the in-membership update (assortative: same affinity; general:
+transposed view `wT`), then the affinity update, with these argument lists -/
+theorem loop_steps_documented :
+    Gen.loopSteps = [("out_edges_target_vertices", "u_list,v_list,A,w,v,u"),
+                     ("in_edges_source_vertices", "v_list,u_list,A,w,u,v"),
+                     ("in_edges_source_vertices", "v_list,u_list,A,wT,u,v"),
+                     ("affinity", "u_list,v_list,A,u,v,w")] := rfl
+
+/-- the guards and the truncation of `update_vertices` are exactly: `Z > ε`, edge rate `> ε`, old value
+`> ε`, `|new| < ε → 0` -/
+theorem vertex_guards_documented :
+    Gen.vertexGuards = ["Z>EPS_PRECISION", "Zij_a>EPS_PRECISION", "mat_to_update_old(i,k)>EPS_PRECISION",
+                        "std::abs(mat_to_update(i,k))<EPS_PRECISION"] := rfl
+
+/-- … and those of `update_affinity` (assortative and general branch) -/
+theorem affinity_guards_documented :
+    Gen.affinityGuards = ["Z_kq>EPS_PRECISION", "Zij_a>EPS_PRECISION", "std::abs(w(k,a))<EPS_PRECISION",
+                          "std::abs(w(k,q,a))<EPS_PRECISION", "w_old(k,a)>EPS_PRECISION",
+                          "w_old(k,q,a)>EPS_PRECISION"] := rfl
 
 /-- non-vacuity: the snap on concrete numbers -/
 example : snapR (1 / 2000000) = 0 ∧ snapR (1 / 2) = 1 / 2 := by
